@@ -35,6 +35,18 @@ CLAIMS = {
    ref="5 C09", tech=TECH_C),
 }
 
+CLAIMS["C01"] = dict(
+   text="Solver-decided kernels of the byte-delivery path: (K1) every catalogue accessor equals the DFS bit-field layout for all 2^128 name+metadata "
+        "values; (K2) visit_file_body_piecewise reads exactly sectors start.. in order and hands on exactly the catalogued number of bytes, piece by piece, "
+        "for every start sector and every length up to the bound (1024 quick / 4096 thorough), with unreadable sectors raising BadFileSystem; (K3) the "
+        "Opus volume window maps sector n to origin+n. Renderings (type/list/dump) and name lookup are separate obligations (see evidence).",
+   note="bounded by file length; command-level composition (body_command) argued, not solver-decided; stubs/vf_stubs.c models; IR->C translator validated each run",
+   ref="5 C01", tech=TECH_CXX)
+CLAIMS["C17"] = dict(
+   text="For every 32-bit origin/length and 64-bit sector number the volume window forwards a read iff it lies inside the volume; the surface window "
+        "(FileView) and flux adapters likewise (obligations listed in evidence).",
+   note="as C01", ref="5 C17", tech=TECH_CXX)
+
 NOT_APPLICABLE = {}
 
 LEVEL = "model_checking"
